@@ -151,6 +151,8 @@ def _triples(ctx):
     rng = ctx.rng
     out = []
     box = ctx.n((40, 12), (400, 64))
+    if ctx.tier == 'quick' and not ctx.quick:      # quick tier escalated by a broken secondary tie: an intermediate box
+        box = (160, 32)
     for ns in range(1, box[0] + 1):
         for w in range(1, box[1] + 1):
             for ov in range(0, w):
